@@ -118,6 +118,11 @@ def run(ctx):
     for l in gen.each_bin(per_bin):
         bases += l
     ctx.cov["generic_programs"] = len(gen.progs)
+    # the same in the release profile (no debug assertions): what a deployed contract runs
+    rel = ctx.family("release")
+    for l in rel.each_bin(per_bin):
+        bases += l
+    ctx.cov["release_profile_programs"] = len(rel.progs)
     if any(b != bases[0] for b in bases):
         ctx.violate("schema-depends-on-program", "schema of Remote differs between programs", {})
     ctx.cov["programs"] = len(fam.progs)
